@@ -34,7 +34,7 @@ fn valid_p(x: u64) -> bool {
     x >> 52 == 0
 }
 
-fn ctor(x: &u64, obs: &mut Obs) -> CaseResult {
+pub fn ctor(x: &u64, obs: &mut Obs) -> CaseResult {
     let x = *x;
     // ---- VirtAddr
     let t = VirtAddr::try_new(x);
@@ -607,7 +607,7 @@ fn check_produced(p: &Produced, op: &Op, i: usize) -> CaseResult {
     Ok(())
 }
 
-fn prog(ops: &Vec<Op>, obs: &mut Obs) -> CaseResult {
+pub fn prog(ops: &Vec<Op>, obs: &mut Obs) -> CaseResult {
     let mut regs = Regs::new();
     let mut shape: Vec<(u8, u8)> = vec![];
     let mut nt = false;
